@@ -41,6 +41,27 @@ def explore(cfg, env0, funcs=None, on_node=None, max_states=20000, start=None, u
                     continue
                 if val is _UNKNOWN or (val and l == 'T') or (not val and l == 'F'):
                     succs.append((s, env))
+        elif nd.kind == 'for' and ('@it%d' % nd.id) in env:
+            # iteration over an iterable that was closed when the loop was entered
+            items, idx = env['@it%d' % nd.id]
+            env2 = dict(env)
+            tgt = nd.ast
+            if idx < len(items):
+                if isinstance(tgt, ast.Name):
+                    env2[tgt.id] = items[idx]
+                elif isinstance(tgt, ast.Tuple) and all(isinstance(t, ast.Name) for t in tgt.elts) and isinstance(items[idx], tuple) \
+                        and len(items[idx]) == len(tgt.elts):
+                    for t, v in zip(tgt.elts, items[idx]):
+                        env2[t.id] = v
+                env2['@it%d' % nd.id] = (items, idx + 1)
+                for s, l in nd.succ:
+                    if l == 'next':
+                        succs.append((s, env2))
+            else:
+                del env2['@it%d' % nd.id]
+                for s, l in nd.succ:
+                    if l == 'done':
+                        succs.append((s, env2))
         else:
             env2 = dict(env)
             ks = kills(nd)
@@ -54,6 +75,28 @@ def explore(cfg, env0, funcs=None, on_node=None, max_states=20000, start=None, u
                 if p and p not in pinned:
                     try:
                         env2[p] = A.ev(a.value, env, funcs)
+                        hash(env2[p])
+                    except (A.NotClosed, TypeError, AttributeError, IndexError, KeyError, ValueError):
+                        env2.pop(p, None)
+            if nd.kind == 'stmt' and isinstance(nd.stmt, ast.For) and a is nd.stmt.iter:
+                # entering a for loop: remember the iterable if it is closed (the loop head then iterates it)
+                try:
+                    items = A.ev(a, env, funcs)
+                    if isinstance(items, range):
+                        items = tuple(items)
+                    if isinstance(items, (tuple, str)) and len(items) <= 200:
+                        heads = [s_ for s_, _l in nd.succ if s_.kind == 'for']
+                        if heads:
+                            env2['@it%d' % heads[0].id] = (tuple(items), 0)
+                except (A.NotClosed, TypeError, AttributeError, IndexError, KeyError, ValueError):
+                    pass
+            if nd.kind == 'stmt' and isinstance(a, ast.Expr) and isinstance(a.value, ast.Call) and isinstance(a.value.func, ast.Attribute) \
+                    and a.value.func.attr in ('append', 'extend') and len(a.value.args) == 1:
+                p = path_of(a.value.func.value)
+                if p and p in env and isinstance(env[p], tuple) and p not in pinned:
+                    try:
+                        v_ = A.ev(a.value.args[0], env, funcs)
+                        env2[p] = env[p] + ((v_,) if a.value.func.attr == 'append' else tuple(v_))
                         hash(env2[p])
                     except (A.NotClosed, TypeError, AttributeError, IndexError, KeyError, ValueError):
                         env2.pop(p, None)
